@@ -44,7 +44,11 @@ def shapes():
     concrete_start = {"name": "WCs", "abstract": [["A", None, "ABC"]],
                       "prods": [["L", "A", None, [["v", G.IR01]]], ["K", "A", None, [["v", G.IR22]]], ["P", "A", None, [["x", G.ref("A")]]]],
                       "start": "P", "considered": ["A", "L", "K"]}
-    return [two, three, nested, nested_start, concrete_start]
+    # the nested abstract layer is not among the considered subtypes (only the productions are supplied)
+    nested_unlisted = {"name": "WNu", "abstract": [["A", None, "ABC"], ["B", "A", "decorator"]],
+                       "prods": [["L", "A", None, [["v", G.IR01]]], ["M", "B", None, [["v", G.IR22]]], ["N", "B", None, [["a", G.ref("A")]]]],
+                       "start": "A", "considered": ["L", "M", "N"]}
+    return [two, three, nested, nested_start, concrete_start, nested_unlisted]
 
 
 def assignments(spec, tier):
